@@ -33,7 +33,8 @@ def run_episode(spec, uid="E"):
     def real(kind):
         if kind not in reals:
             render, back = _renderer(kind)
-            reals[kind] = (build_real(world, render), render, back)
+            reals[kind] = (build_real(world, render, level_limit=spec.get("level_limit"),
+                                      order_seed=spec.get("order_seed")), render, back)
             events.append({"k": "arch", "a": f"{uid}.A{kind}", "first": not events, **observe(reals[kind][0], back)})
         return reals[kind]
 
